@@ -204,6 +204,33 @@ def main(tier):
             chk.violation("diagnostic of run %s: %s does not agree with index %d (line %d, quote %r)" % (cid, rep["why"], e["index"], e["line"], e["quote"]),
                           {"kind": "located_run", "case": next(c for c in cases if c["id"] == cid), "signature": sig}, sig)
     chk.sample({"location_table": {"alphabet": "a sp LF CR", "max_len": maxlen, "rows": len(pairs)}})
+    # faults of a Path directive (C13's faulty variants) with a second, correct Path directive after it: the
+    # diagnostic lies inside the Path directive at fault
+    import c13
+    pdocs = c04.gen_docs(chk, 6000 if thorough else 700, 4, seed() * 100 + 23, features=c13.FEATS, workers=8 if thorough else 4)
+    pcases, pmeta = [], {}
+    for n, m in enumerate(pdocs):
+        if not m["valid"] or n % (1 if thorough else 3):
+            continue
+        for nm, text, lo, hi in c13.located_variants(m["doc"]):
+            cid = "pv%d_%s" % (n, nm)
+            pcases.append(rel.case(cid, text))
+            pmeta[cid] = (nm, text, lo, hi)
+    pobs = harness("run", pcases)
+    for cid, (nm, text, lo, hi) in pmeta.items():
+        o = pobs[cid]
+        chk.evaluations += 1
+        chk.traces += 1
+        chk.nontrivial.add(nm + text)
+        if o["outcome"] != "error":
+            continue                    # acceptance of a faulty variant is C13's subject
+        e = o["err"]
+        if e["file"] != "main.jst" or not (lo <= e["index"] <= hi):
+            sig = {"what": "outside-directive", "variant": nm}
+            chk.violation("fault %s of a Path directive at bytes %d..%d, but the diagnostic %r is at %s byte %d (line %d) | document:\n%s" % (
+                nm, lo, hi, e["msg"], e["file"], e["index"], e["line"], text[:1500]),
+                {"kind": "path_fault", "variant": nm, "file": text, "span": [lo, hi], "observed": o, "signature": sig}, sig)
+    chk.extra["path_directive_faults"] = len(pmeta)
     # include graphs enumerated by TLC (spec/JSightInclude.tla), replayed with the file-operation hook on
     incgraph.run(chk, tier, "C02")
     chk.rule = ("location table: all single-convention contents <= %d x all indices; rejected runs of fixtures, TLC-generated "
